@@ -232,4 +232,104 @@ theorem compat_eq_spec (c v : Ver) (raw : Str) (wc : WF c) (hv : scan raw = some
   rw [h1]
   cases admits .ge v false raw c <;> simp [admits]
 
+/-! ### the property: `contains` with pre-releases enabled equals the PEP 440 definition -/
+
+/-- What "the operator's grammar admits the clause" gives: the text after the operator reads (`V.scan`) as the
+version `v`; a trailing `.*` only after `==`/`!=` and only on a bare release; a local label only after
+`==`/`!=`; at least two release components after `~=`; anything after `===`.
+(`Specifier._regex` enforces exactly these; C12 proves that language against PEP 440.) -/
+inductive Clause : Spec → Ver → Bool → Prop
+  | plain (op : S.Op) (raw : Str) (v : Ver) (hop : op ≠ .arbitrary) (hv : scan raw = some v)
+      (hnw : endsWith raw [46, 42] = false) (hloc : v.loc ≠ none → op = .eq ∨ op = .ne)
+      (hcompat : op = .compatible → 2 ≤ v.release.length) : Clause ⟨op, raw⟩ v false
+  | wild (op : S.Op) (t : Str) (v : Ver) (hop : op = .eq ∨ op = .ne) (hv : scan t = some v) (hb : Bare v) :
+      Clause ⟨op, t ++ [46, 42]⟩ v true
+  | arbitrary (raw : Str) (v : Ver) : Clause ⟨.arbitrary, raw⟩ v false
+
+/-- one lemma per operator, assembled -/
+theorem compare_eq_spec (sp : Spec) (v : Ver) (wild : Bool) (c : Ver) (hcl : Clause sp v wild) (wc : WF c) :
+    sp.compare c = .ok (admits sp.op v wild sp.ver c) := by
+  cases hcl with
+  | plain op raw v hop hv hnw hloc hcompat =>
+    cases op with
+    | compatible =>
+      have hl : v.loc = none := by
+        cases h : v.loc with
+        | none => rfl
+        | some l => have := hloc (by simp [h]); simp at this
+      exact compat_eq_spec c v raw wc hv hl (hcompat rfl)
+    | eq => exact eq_eq_spec c v raw wc hv hnw
+    | ne => exact ne_eq_spec c v raw wc hv hnw
+    | le => exact le_eq_spec c v raw wc hv
+    | ge => exact ge_eq_spec c v raw wc hv
+    | lt => exact lt_eq_spec c v raw wc hv
+    | gt => exact gt_eq_spec c v raw wc hv
+    | arbitrary => exact absurd rfl hop
+  | wild op t v hop hv hb =>
+    rcases hop with rfl | rfl
+    · exact eq_wild_eq_spec c v t wc hv hb
+    · exact ne_wild_eq_spec c v t wc hv hb
+  | arbitrary raw v => exact arbitrary_eq_spec v c raw
+
+/-- **C03.**  For every clause the grammar admits (any spelling of its version), every candidate `scan` can
+return, and whatever override the specifier was constructed with: `contains(candidate, prereleases=True)` is
+the PEP 440 definition of the operator.  No exception escapes. -/
+theorem contains_eq_spec (sp : Spec) (v : Ver) (wild : Bool) (c : Ver) (override : Option Bool)
+    (hcl : Clause sp v wild) (wc : WF c) :
+    sp.contains override c (some true) = .ok (admits sp.op v wild sp.ver c) := by
+  simp only [Spec.contains, Bool.not_true, Bool.and_false, Bool.false_eq_true, if_false, bind, Except.bind, pure,
+    Except.pure]
+  exact compare_eq_spec sp v wild c hcl wc
+
+/-- the same through the specifier's own setting: `Specifier(s, prereleases=True).contains(c)` / `c in …` -/
+theorem contains_override_eq_spec (sp : Spec) (v : Ver) (wild : Bool) (c : Ver)
+    (hcl : Clause sp v wild) (wc : WF c) :
+    sp.contains (some true) c none = .ok (admits sp.op v wild sp.ver c) := by
+  simp only [Spec.contains, Spec.prereleases, Bool.not_true, Bool.and_false, Bool.false_eq_true, if_false, bind,
+    Except.bind, pure, Except.pure]
+  exact compare_eq_spec sp v wild c hcl wc
+
+/-! ### non-vacuity: concrete clauses and candidates on every branch -/
+
+def mk (rel : List Nat) (pre : Option (PreL × Nat) := none) (post dev : Option Nat := none)
+    (loc : Option (List LSeg) := none) (epoch : Nat := 0) : Ver :=
+  { epoch := epoch, release := rel, pre := pre, post := post, dev := dev, loc := loc }
+
+/-- the answer of a comparison, `false` if it raised -/
+def okTrue : R Bool → Bool
+  | .ok b => b
+  | .error _ => false
+def okFalse : R Bool → Bool
+  | .ok b => !b
+  | .error _ => false
+
+-- `==1!1.0.0.*` admits `1!1` (zero padding) and `1!1.0.0rc1`, not `1.0.0` (epoch) nor `1!1.0.1`
+example : Clause ⟨.eq, ofString "1!1.0.0" ++ [46, 42]⟩ (mk [1, 0, 0] (epoch := 1)) true :=
+  .wild .eq (ofString "1!1.0.0") (mk [1, 0, 0] (epoch := 1)) (.inl rfl) (by decide +kernel) ⟨rfl, rfl, rfl, rfl⟩
+example : admits .eq (mk [1, 0, 0] (epoch := 1)) true [] (mk [1] (epoch := 1)) = true ∧
+          admits .eq (mk [1, 0, 0] (epoch := 1)) true [] (mk [1, 0, 0] (pre := some (.rc, 1)) (epoch := 1)) = true ∧
+          admits .eq (mk [1, 0, 0] (epoch := 1)) true [] (mk [1, 0, 0]) = false ∧
+          admits .eq (mk [1, 0, 0] (epoch := 1)) true [] (mk [1, 0, 1] (epoch := 1)) = false := by decide +kernel
+-- `~=1.0.POST1` (any spelling) means `>=1.0.post1, ==1.*`: it admits 1.1 — this failed before C03-fix-1
+example : Clause ⟨.compatible, ofString "1.0.POST1"⟩ (mk [1, 0] (post := some 1)) false :=
+  .plain .compatible (ofString "1.0.POST1") (mk [1, 0] (post := some 1)) (by decide) (by decide +kernel)
+    (by decide +kernel) (by decide) (by decide)
+example : okTrue ((⟨.compatible, ofString "1.0.POST1"⟩ : Spec).compare (mk [1, 1])) = true := by decide +kernel
+example : okTrue ((⟨.compatible, ofString "v1.0"⟩ : Spec).compare (mk [1, 5])) = true := by decide +kernel
+-- `>1.0.post1` admits `1.0.post2+x`, `>1.0a1` admits `1.0+x` (failed before C03-fix-2); `>1.0` rejects `1.0+x`
+example : okTrue ((⟨.gt, ofString "1.0.post1"⟩ : Spec).compare
+    (mk [1, 0] (post := some 2) (loc := some [.str [120]]))) = true := by decide +kernel
+example : okTrue ((⟨.gt, ofString "1.0a1"⟩ : Spec).compare (mk [1, 0] (loc := some [.str [120]]))) = true := by
+  decide +kernel
+example : okFalse ((⟨.gt, ofString "1.0"⟩ : Spec).compare (mk [1, 0] (loc := some [.str [120]]))) = true := by
+  decide +kernel
+-- `<1.0` rejects `1.0.dev0` and `1.0a1` but `<1.0rc1` admits `1.0a1`; `>1.0` rejects `1.0.post1`
+example : okFalse ((⟨.lt, ofString "1.0"⟩ : Spec).compare (mk [1, 0] (dev := some 0))) = true ∧
+          okTrue ((⟨.lt, ofString "1.0"⟩ : Spec).compare (mk [0, 9] (dev := some 0))) = true ∧
+          okTrue ((⟨.lt, ofString "1.0rc1"⟩ : Spec).compare (mk [1, 0] (pre := some (.a, 1)))) = true ∧
+          okFalse ((⟨.gt, ofString "1.0"⟩ : Spec).compare (mk [1, 0, 0] (post := some 1))) = true ∧
+          okTrue ((⟨.gt, ofString "1.0.post1"⟩ : Spec).compare (mk [1, 0] (post := some 2))) = true := by
+  decide +kernel
+example : WF (mk [1, 0] (post := some 2) (loc := some [.str [120]])) := by decide
+
 end C03
